@@ -710,10 +710,10 @@ class arlpackedbit(PseudoNetCDFFile):
             xe.standard_name = 'longitude_bounds'
             xe.units = 'degrees'
             x[:] = np.arange(0, nx) * float(self.REFLON) + self._synchlon
-            xe[:-1, 1] = x[:1] + np.diff(x) / 2
+            xe[:-1, 1] = x[:-1] + np.diff(x) / 2
             xe[1:, 0] = x[1:] - np.diff(x) / 2
             xe[0, 0] = x[0] - np.diff(x)[0] / 2
-            xe[1, 1] = x[1] + np.diff(x)[1] / 2
+            xe[-1, 1] = x[-1] + np.diff(x)[-1] / 2
             y = self.createVariable('y', 'f', ('y',))
             y.standard_name = 'latitude'
             y.units = 'degrees'
@@ -721,10 +721,10 @@ class arlpackedbit(PseudoNetCDFFile):
             ye.standard_name = 'latitude_bounds'
             ye.units = 'degrees'
             y[:] = np.arange(0, ny) * float(self.REFLAT) + self._synchlat
-            ye[:-1, 1] = y[:1] + np.diff(y) / 2
+            ye[:-1, 1] = y[:-1] + np.diff(y) / 2
             ye[1:, 0] = y[1:] - np.diff(y) / 2
             ye[0, 0] = y[0] - np.diff(y)[0] / 2
-            ye[1, 1] = y[1] + np.diff(y)[1] / 2
+            ye[-1, 1] = y[-1] + np.diff(y)[-1] / 2
 
         times = [datetime.strptime(
             t.astype('S8').decode(), '%y%m%d%H') for t in tflag]
